@@ -200,6 +200,13 @@ example : ∃ D g, deadlocked startPos.b nvBlocked = some D ∧ D ⟨4, by decid
   · decide +kernel
   · decide +kernel
 
+/-- **castling rights are never regained**: a right (any set of bits of the castle mask) absent in `p` is absent in every
+    position reachable from `p` — so `computeBlocked`'s early `return false` for a goal that has a castling right the current
+    position lacks never rejects a reachable goal -/
+theorem castling_rights_never_regained (p g : Pos) (ms : List Mv) (h : Playable p ms g) (bit : UInt8)
+    (hb : p.castle &&& bit = 0) : g.castle &&& bit = 0 :=
+  castle_monotone p g ms h bit hb
+
 /-- a `QuietLine` is in particular a legal line of the specification -/
 theorem quiet_line_playable (B : Sq → Bool) (p q : Pos) (ms : List Mv) (h : QuietLine B p ms q) : Playable p ms q :=
   h.playable
